@@ -20,7 +20,7 @@ Local Open Scope Z_scope.
 (* ---------- checked memory accesses: None = outside the object ---------- *)
 Definition rd (b : list Z) (i : Z) : option Z :=
   if (0 <=? i) && (i <? len b) then Some (nthz b i) else None.
-Definition rd16 (b : list Z) (i : Z) : option Z :=          (* ntohs(*(unsigned short* )&b[i]) *)
+Definition rd16 (b : list Z) (i : Z) : option Z :=          (* big-endian 16-bit read at b[i] *)
   match rd b i, rd b (i + 1) with Some h, Some l => Some (256 * h + l) | _, _ => None end.
 Definition rdn (b : list Z) (i n : Z) : option (list Z) :=   (* memcpy(_, &b[i], n) *)
   if (0 <=? i) && (0 <=? n) && (i + n <=? len b) then Some (take n (drop i b)) else None.
